@@ -130,6 +130,9 @@ func (DefaultPodSpecExtractor) ExtractPodSpec(obj runtime.Object) (*metav1.Objec
 	case *batchv1.CronJob:
 		return extractPodSpecFromTemplate(&o.Spec.JobTemplate.Spec.Template)
 	default:
+		if obj == nil {
+			return nil, nil, fmt.Errorf("unexpected nil object")
+		}
 		return nil, nil, fmt.Errorf("unexpected object type: %s", obj.GetObjectKind().GroupVersionKind().String())
 	}
 }
